@@ -249,7 +249,7 @@ def step(state, action, invariants):
                               f"{action.name} raised {e!r} (innermost library frame: {where})")]
     state.trace.append(action.name)
     for name, ref in state.sh.items():
-        if not np.any(ref) or np.linalg.norm(ref) < 1e-13:
+        if not np.any(ref) or np.linalg.norm(ref) < state.aux.get("zero_floor", 1e-13):
             # an exactly/numerically zero object is outside every quantifier ("normalisable states"): prune
             return "disabled", []
     viol = list(extra)
